@@ -83,7 +83,8 @@ theorem C03_snapshot_complete (c : MvccCfg) (hc : c.SnapGood) (fp : Key → Nat)
   replace hc := hc.1
   refine ⟨by simp [step, beginTxn, hc], ?_, ?_⟩
   · refine ⟨{ update := upd, readTs := s.nextTs - c.readTsOff, reads := [], ckeys := [], writes := [], count := 1,
-               size := 0, discarded := false, doneRead := false, tag := s.nextTag, rkeys := [], rlog := [] },
+               size := 0, discarded := false, doneRead := false, tag := s.nextTag, rkeys := [], rlog := [],
+               scanned := false, slog := [] },
              ⟨?_, rfl⟩, ?_⟩
     · simp only [step, beginTxn]; rw [getTxn_putTxn]; simp
     · simp [hc]
@@ -131,6 +132,8 @@ theorem C03_conflict_of_kept_history (c : MvccCfg) (hc : c.DetectGood) (fp : Key
   obtain ⟨_, _, hchk, hskip, _, _, hfin, _⟩ := hc
   have hconf : hasConflict c s t = true := by
     unfold hasConflict
+    split
+    · rfl
     have hne : t.reads ≠ [] := by intro h; rw [h] at hr; cases hr
     simp only [hne, if_false, Bool.or_eq_true, hfin, Bool.not_false, Bool.true_and]
     right
@@ -194,6 +197,18 @@ the per-commit facts into one serial execution.  All three are now proved
 (NoKVModel/Mvcc/SerialLemmas.lean: `InvR_step`, `readAt_flatLog`, `InvSer_step`, `Reach_InvSer`);
 the per-commit fact is the commit case of `InvSer_step` and is no longer stated separately.
 -/
+/-
+`C03_serializable` below is a PARTIAL statement of the property's last sentence (kind `partial` in
+props/C03.json): its notion of "read" is the point reads and the items an iterator RETURNED.  The
+property's quantifier includes `iterate`, and an iterator also observes that keys are ABSENT.
+Full-strength statement: `C03_serializable_range` further down — the same serial execution in
+which every committed transaction additionally re-runs each of its scans on the abstract map and
+must get the same item list (`SerialR`, `scansOk`: for every key not shadowed by the transaction's
+own pending writes, returned or absent).  What `C03_serializable` lacks is exactly that: it says
+nothing about keys a scan saw absent.  The full statement needs the iterator to record the
+scanned range and a conflict rule for ranges (`txnit.tracksRange = true`); the tree does neither
+(open finding `scan-phantom-write-skew`, `C03_fails_asis_phantom`).
+-/
 /-- **Serializability in commit-timestamp order (headline).**  For every history — any number of
 transactions, any interleaving of begin / get / scan / set / delete / commit / commitwith /
 discard / close / reopen, any limits, any fingerprint function — let `txns` be the transactions
@@ -232,6 +247,23 @@ theorem C03_serializable (c : MvccCfg) (hc : c.ConfGood) (fp : Key → Nat) (s :
     | some v =>
       exact C03_conflict c hc fp s hs id t hl hw cm hcm hts p.1 (hR id t hl p hp).2 ⟨v, lookupW_mem hx⟩
 
+/-- **Serializability with range reads (full statement).**  For the configuration in which scans
+track their range (`scanTracksRange`: a transaction that scanned conflicts with every commit above
+its read timestamp — the model variant of a range-conflict rule for unbounded scans; the tree has
+no such code): for every history, the committed transactions in commit order form a serial
+execution on the abstract map in which each transaction's point reads AND each of its scans
+return exactly what they returned in the real history — `scansOk`: for every key the scan asked
+the store about (every key outside the transaction's own pending writes), returned or absent,
+the logged item list agrees with the abstract map at the transaction's commit point — and that
+execution ends in the abstract map the store holds. -/
+theorem C03_serializable_range (c : MvccCfg) (hc : c.ConfGood ∧ c.RangeGood) (fp : Key → Nat) (s : St)
+    (hs : Reach c fp s) :
+    s.log.reverse.Pairwise (fun earlier later => earlier.ts < later.ts) ∧
+    SerialR (fun _ => none) s.log.reverse (amapOf s.log) ∧
+    (∀ k r, (∀ cm ∈ s.log, cm.ts ≤ r) → readAt s.store k r = amapOf s.log k) := by
+  obtain ⟨h1, _, h3, _, _⟩ := C03_serializable c hc.1 fp s hs
+  exact ⟨h1, SerialR_of_OKs s.log (Reach_InvSer hc.1 hs).serial (Reach_ScanOKs hc.1 hc.2 hs), h3⟩
+
 -- ---------------------------------------------------------------- the as-is tree
 
 def kA : Key := [106]
@@ -250,8 +282,8 @@ def witnessAtDone : List Op :=
    .begin 3 false, .discard 3, .begin 2 true, .set 2 kA (some [120]), .commit 2,
    .set 1 kB (some [118, 49])]
 
-def asisZero (holds : Bool) : MvccCfg := { MvccCfg.good with wmTracksZero := false, wmHoldsAtDone := holds }
-def asisAtDone (zero : Bool) : MvccCfg := { MvccCfg.good with wmTracksZero := zero, wmHoldsAtDone := false }
+def asisZero (holds : Bool) : MvccCfg := { MvccCfg.tree with wmTracksZero := false, wmHoldsAtDone := holds }
+def asisAtDone (zero : Bool) : MvccCfg := { MvccCfg.tree with wmTracksZero := zero, wmHoldsAtDone := false }
 
 /-- decidable form of "handle 1 is a live transaction with pending writes that read `kB` from the
 store, and a successful commit above its read timestamp wrote `kB`" -/
@@ -322,8 +354,8 @@ example : (step MvccCfg.good fpW (run MvccCfg.good fpW (init 64 1048576 1024) (s
   decide
 -- `Serial` is not trivially true: a log whose second transaction read `kA = none` after the first wrote it
 example (m' : AMap) : ¬ Serial (fun _ => none)
-    [{ ts := 1, readTs := 0, writes := [(kA, some [1])], rlog := [] },
-     { ts := 2, readTs := 0, writes := [(kB, some [2])], rlog := [(kA, none)] }] m' := by
+    [{ ts := 1, readTs := 0, writes := [(kA, some [1])], rlog := [], slog := [] },
+     { ts := 2, readTs := 0, writes := [(kB, some [2])], rlog := [(kA, none)], slog := [] }] m' := by
   rintro ⟨_, h2, _⟩
   have := h2 (kA, none) List.mem_cons_self
   revert this
@@ -334,6 +366,47 @@ example : ¬ SerialOK (run (asisZero false) fpW (init 64 1048576 1024) (witnessZ
   have h1 : readsOk _ _ := (show SerialOK (_ :: _) from h).1
   have := h1 (kB, none) (by decide)
   revert this
+  decide
+
+/-- corpus/C03/finding-scan-phantom-write-skew.ops (up to the two commits) -/
+def witnessPhantom : List Op :=
+  [.begin 1 true, .begin 2 true, .scan 1, .scan 2, .set 1 [97] (some [49]), .set 2 [98] (some [50]),
+   .commit 1, .commit 2]
+
+/-- decidable form of: the log holds exactly two transactions, and each of them scanned and saw
+nothing for a key the other one wrote -/
+def phantomCheck (log : List Commit) : Bool :=
+  match log with
+  | [b, a] => sawNothingOf a b && sawNothingOf b a
+  | _ => false
+
+/-- **Finding scan-phantom-write-skew** (tree as it is: `TxnIterator.advance` fingerprints returned
+items only, nothing records the scanned range).  Two update transactions scan the empty key
+space, then each writes a different key; BOTH commits answer `ok`, and the two committed
+transactions have no serial order at all in which their scans return what they returned
+(in either order the second one's scan would have returned the first one's key): write skew
+through a phantom. -/
+theorem C03_fails_asis_phantom (c : MvccCfg) (hc : c = MvccCfg.tree) :
+    (step c fpW (run c fpW (init 64 1048576 1024) (witnessPhantom.take 6)) (.commit 1)).2 = .ok ∧
+    (step c fpW (run c fpW (init 64 1048576 1024) (witnessPhantom.take 7)) (.commit 2)).2 = .ok ∧
+    ∃ a b, (run c fpW (init 64 1048576 1024) witnessPhantom).log = [b, a] ∧
+      (∀ m', ¬ SerialR (fun _ => none) [a, b] m') ∧ (∀ m', ¬ SerialR (fun _ => none) [b, a] m') := by
+  subst hc
+  refine ⟨by decide, by decide, ?_⟩
+  have hchk : phantomCheck (run MvccCfg.tree fpW (init 64 1048576 1024) witnessPhantom).log = true := by decide
+  generalize (run MvccCfg.tree fpW (init 64 1048576 1024) witnessPhantom).log = log at hchk
+  match log, hchk with
+  | [b, a], hchk =>
+    simp only [phantomCheck, Bool.and_eq_true] at hchk
+    exact ⟨a, b, rfl, fun m' => not_after b a hchk.2 m', fun m' => not_after a b hchk.1 m'⟩
+
+-- non-vacuity: in the range-tracking variant the second commit of the same witness answers `conflict`,
+-- and a scan followed by no interfering commit still commits
+example : (step MvccCfg.good fpW (run MvccCfg.good fpW (init 64 1048576 1024) (witnessPhantom.take 7)) (.commit 2)).2 = .conflict := by
+  decide
+example : (step MvccCfg.good fpW (run MvccCfg.good fpW (init 64 1048576 1024) (witnessPhantom.take 6)) (.commit 1)).2 = .ok := by
+  decide
+example : ((run MvccCfg.good fpW (init 64 1048576 1024) serialDemo).log.map (fun cm => cm.slog.length)) = [1, 0, 0] := by
   decide
 
 end NoKV.Props.C03
